@@ -420,9 +420,66 @@ func c14DrawPlan(ch *Choices, n int, starts []int) []TFault {
 	return plan
 }
 
+// c14Leak: many DISTINCT messages through one entry point; what stays reachable afterwards must not grow
+// with the total input ever decoded (a cache keyed by input-derived data would).
+func c14Leak(ch *Choices, cfg *RunCfg, o *Outcome) {
+	entry := ch.Intn(nC14Entry, "entry")
+	M := ch.Range(100, 300, "leak.msgs")
+	nameLen := []int{40, 2000, 30000, 60000}[ch.Intn(4, "leak.namelen")]
+	tm, _ := copyMaps()
+	var total int
+	live := func() uint64 {
+		runtime.GC()
+		var ms runtime.MemStats
+		runtime.ReadMemStats(&ms)
+		return ms.HeapAlloc
+	}
+	resetClock(0)
+	// warm up (first-use caches), then measure
+	c14DecodeOnce(entry, evolvedObjectBigNames(ch, -1, 40), nil, tm, 1, 64, false)
+	before := live()
+	for i := 0; i < M; i++ {
+		var data []byte
+		if ch.Intn(4, "leak.kind") == 0 {
+			data, _, _ = foreignStream(ch, false)
+		} else {
+			data = evolvedObjectBigNames(ch, i, nameLen)
+		}
+		total += len(data)
+		r := c14DecodeOnce(entry, data, nil, tm, 1, 64, false)
+		o.Evals++
+		o.Steps += r.steps
+		if r.class != "" && r.class != "c14/alloc" {
+			o.fail(r.class, r.key, "%s (leak batch, message %d of %d): %s", c14EntryNames[entry], i, M, r.detail)
+			return
+		}
+	}
+	after := live()
+	grow := int64(after) - int64(before)
+	limit := int64(2<<20) + int64(total)/8
+	if cfg.Strict {
+		limit *= 2
+	}
+	o.Probes["leak batch: 100..300 distinct messages through one entry point"]++
+	o.Faults["distinct peer messages decoded in a leak batch"] += M
+	o.Nontrivial = true
+	fp := NewFingerprint()
+	fp.Add(uint64(entry), uint64(M), uint64(nameLen), uint64(total))
+	o.Fingerprint = fp.Sum()
+	o.Sample = map[string]interface{}{"mode": "leak batch", "entry": c14EntryNames[entry], "messages": M, "unknown_field_name_len": nameLen, "total_bytes": total, "live_heap_growth": grow}
+	if grow > limit {
+		o.fail("c14/leak", "heap", "%s: after decoding %d distinct messages (%d bytes in total) the live heap (after a forced collection) has grown by %d bytes (limit 2 MiB + total/8 = %d): memory stays reachable in proportion to all input ever decoded, not to the size of one input",
+			c14EntryNames[entry], M, total, grow, limit)
+	}
+}
+
 func runC14(ch *Choices, cfg *RunCfg) (o *Outcome) {
 	o = newOutcome()
 	c14Calibrate()
+	if ch.Intn(25, "mode.leak") == 1 {
+		c14Leak(ch, cfg, o)
+		return o
+	}
 	setMapOrder(ch.Salt("mapsalt"))
 	var valid []byte
 	var starts []int
